@@ -3,6 +3,8 @@
 //! observation line per case on stdout (flushed per line so that a crash pinpoints the case).
 mod cast_fam;
 mod common_fam;
+#[cfg(feature = "builder")]
+mod ctor_fam;
 mod header_fam;
 mod ids_fam;
 mod sweep;
@@ -12,6 +14,7 @@ use std::io::{BufRead, Write};
 
 pub struct Ctx {
     pub arena: util::Arena,
+    pub low: *mut u8,
 }
 
 fn handle(ctx: &Ctx, line: &str) -> String {
@@ -31,6 +34,9 @@ fn handle(ctx: &Ctx, line: &str) -> String {
         "FIND" => header_fam::find_case(ctx, &t),
         "SWEEP" => sweep::sweep_case(ctx, &t),
         "CAST" => cast_fam::cast_case(ctx, &t),
+        "ELFNAME" => sweep::elfname_case(ctx, &t),
+        #[cfg(feature = "builder")]
+        "CTOR" => ctor_fam::ctor_case(&t),
         f => format!("unknown-family:{}", f),
     }
 }
@@ -41,7 +47,7 @@ fn main() {
     let mode = args.get(1).map(|s| s.as_str()).unwrap_or("run");
     match mode {
         "run" => {
-            let ctx = Ctx { arena: util::Arena::new(260) };
+            let ctx = Ctx { arena: util::Arena::new(260), low: util::low_buffer() };
             let stdin = std::io::stdin();
             let stdout = std::io::stdout();
             let mut out = stdout.lock();
